@@ -150,57 +150,108 @@ Definition add_tag (ty : N) (v : bytes) : bytes :=
 
 (* ------------------------------------------------------------------ session table *)
 Record sess := { s_uid : N; s_sid : N; s_tup : tuple }.
+Definition sess_eqb (a b : sess) : bool :=       (* pointer equality of *SessionState *)
+  N.eqb (s_uid a) (s_uid b) && N.eqb (s_sid a) (s_sid b) && tuple_eqb (s_tup a) (s_tup b).
 
 Record st := {
-  by_tup : gmap tuple sess;     (* c.sessions  (key: "mac:svlan:cvlan") *)
-  by_sid : Nmap sess;           (* c.sidIndex *)
-  next   : N;                   (* c.nextSessionID, uint16 *)
-  ctr    : N                    (* number of session objects created so far (object identity) *)
+  by_tup  : gmap tuple sess;    (* c.sessions  (key: "mac:svlan:cvlan") *)
+  by_sid  : Nmap sess;          (* c.sidIndex *)
+  by_uidx : Nmap sess;          (* c.sessionIDIndex and c.acctSessionIndex: keyed by the session's own unique id *)
+  by_attr : gmap bytes sess;    (* c.usernameIndex (ipv4Index / ipv6Index have the same shape): keyed by a
+                                   value stored IN the session, which two sessions can share *)
+  attr_of : Nmap bytes;         (* uid -> that session object's current Username field *)
+  pend    : list sess;          (* handlePADR invocations between allocateSessionID and addToIndexes *)
+  next    : N;                  (* c.nextSessionID, uint16 *)
+  ctr     : N                   (* number of session objects created so far (object identity) *)
 }.
-Definition st0 : st := {| by_tup := ∅; by_sid := ∅; next := 1; ctr := 0 |}.
+Definition st0 : st :=
+  {| by_tup := ∅; by_sid := ∅; by_uidx := ∅; by_attr := ∅; attr_of := ∅; pend := []; next := 1; ctr := 0 |}.
 
-(* which of the two repairs are present.  Repaired = both (the theorems are about it);
-   Defective = neither (the code as found). *)
-Record variant := { v_owner_check : bool;   (* PADT / session packets must come from the session's own tuple *)
-                    v_sid_guard : bool }.   (* id 0 is never handed out *)
-Definition Repaired : variant := {| v_owner_check := true; v_sid_guard := true |}.
-Definition Defective : variant := {| v_owner_check := false; v_sid_guard := false |}.
-Definition DefIso : variant := {| v_owner_check := false; v_sid_guard := true |}.
-Definition DefSid : variant := {| v_owner_check := true; v_sid_guard := false |}.
+(* which repairs are present.  Repaired = all four (the theorems are about it). *)
+Record variant := {
+  v_owner_check : bool;   (* PADT / session packets must come from the session's own tuple      (b12b708) *)
+  v_sid_guard : bool;     (* id 0 is never handed out                                           (731c2cc) *)
+  v_reserve : bool;       (* an allocated id stays reserved until it is indexed (alloc+index atomic)      *)
+  v_guard_remove : bool   (* removeFromIndexes deletes an index entry only if it points to this session   *)
+}.
+Definition mkv a b c d := {| v_owner_check := a; v_sid_guard := b; v_reserve := c; v_guard_remove := d |}.
+Definition Repaired : variant := mkv true true true true.
+Definition Head : variant := mkv true true false false.          (* /repo HEAD after b12b708, 731c2cc *)
+Definition HeadReserve : variant := mkv true true true false.
+Definition HeadGuard : variant := mkv true true false true.
+Definition Defective : variant := mkv false false false false.   (* the code as first found *)
+Definition DefIso : variant := mkv false true false false.
+Definition DefSid : variant := mkv true false false false.
 
 Definition u16 (n : N) : N := (n mod 65536)%N.
 
-(* addToIndexes (the two indexes C04 is about) *)
-Definition add_indexes (x : sess) (s : st) : st :=
+Definition set_next (s : st) (n : N) : st :=
+  {| by_tup := by_tup s; by_sid := by_sid s; by_uidx := by_uidx s; by_attr := by_attr s; attr_of := attr_of s;
+     pend := pend s; next := n; ctr := ctr s |}.
+Definition with_next := set_next.
+Definition bump_ctr (s : st) : st :=
+  {| by_tup := by_tup s; by_sid := by_sid s; by_uidx := by_uidx s; by_attr := by_attr s; attr_of := attr_of s;
+     pend := pend s; next := next s; ctr := N.succ (ctr s) |}.
+Definition set_pend (s : st) (l : list sess) : st :=
+  {| by_tup := by_tup s; by_sid := by_sid s; by_uidx := by_uidx s; by_attr := by_attr s; attr_of := attr_of s;
+     pend := l; next := next s; ctr := ctr s |}.
+Definition set_attr_of (s : st) (u : N) (a : bytes) : st :=
+  {| by_tup := by_tup s; by_sid := by_sid s; by_uidx := by_uidx s; by_attr := by_attr s;
+     attr_of := <[ u := a ]> (attr_of s); pend := pend s; next := next s; ctr := ctr s |}.
+
+(* the session's Username, when it is not "" *)
+Definition get_attr (s : st) (u : N) : option bytes :=
+  match attr_of s !! u with Some (b :: r) => Some (b :: r) | _ => None end.
+
+(* addToIndexes; [a] = the session's Username at that moment (None for a session just built by handlePADR) *)
+Definition add_indexes (a : option bytes) (x : sess) (s : st) : st :=
   {| by_tup := <[ s_tup x := x ]> (by_tup s); by_sid := <[ s_sid x := x ]> (by_sid s);
-     next := next s; ctr := ctr s |}.
+     by_uidx := <[ s_uid x := x ]> (by_uidx s);
+     by_attr := match a with Some k => <[ k := x ]> (by_attr s) | None => by_attr s end;
+     attr_of := attr_of s; pend := pend s; next := next s; ctr := ctr s |}.
+
+(* delete(m, k) — or, with the repair, "if m[k] == sess { delete(m, k) }" *)
+Definition del_if {K} `{Countable K} (gd : bool) (x : sess) (k : K) (m : gmap K sess) : gmap K sess :=
+  if gd then match m !! k with Some y => if sess_eqb y x then delete k m else m | None => m end
+  else delete k m.
+Definition del_ifN (gd : bool) (x : sess) (k : N) (m : Nmap sess) : Nmap sess :=
+  if gd then match m !! k with Some y => if sess_eqb y x then delete k m else m | None => m end
+  else delete k m.
+
 (* removeFromIndexes *)
-Definition remove_indexes (x : sess) (s : st) : st :=
-  {| by_tup := delete (s_tup x) (by_tup s); by_sid := delete (s_sid x) (by_sid s);
-     next := next s; ctr := ctr s |}.
+Definition remove_indexes (v : variant) (x : sess) (s : st) : st :=
+  let g := v_guard_remove v in
+  {| by_tup := del_if g x (s_tup x) (by_tup s); by_sid := del_ifN g x (s_sid x) (by_sid s);
+     by_uidx := del_ifN g x (s_uid x) (by_uidx s);
+     by_attr := match get_attr s (s_uid x) with Some k => del_if g x k (by_attr s) | None => by_attr s end;
+     attr_of := attr_of s; pend := pend s; next := next s; ctr := ctr s |}.
 
 Definition sid_used (m : Nmap sess) (k : N) : bool :=
   match m !! k with Some _ => true | None => false end.
+Definition pend_has (l : list sess) (k : N) : bool := existsb (fun x => N.eqb (s_sid x) k) l.
+(* what allocateSessionID treats as "exists" *)
+Definition id_used (v : variant) (s : st) (k : N) : bool :=
+  sid_used (by_sid s) k || (v_reserve v && pend_has (pend s) k).
 
 (* the loop of allocateSessionID; result (sid, next'), sid = 0 when "no available ids" *)
-Fixpoint alloc_loop (fuel : nat) (m : Nmap sess) (start nxt : N) : result (N * N) :=
+Fixpoint alloc_loop (fuel : nat) (used : N -> bool) (start nxt : N) : result (N * N) :=
   match fuel with
   | O => OutOfFuel
   | S f =>
       let sid := nxt in
       let n1 := u16 (nxt + 1) in
       let n2 := if N.eqb n1 0 then 1%N else n1 in
-      if negb (sid_used m sid) then Ok (sid, n2)
+      if negb (used sid) then Ok (sid, n2)
       else if N.eqb n2 start then Ok (0%N, n2)
-      else alloc_loop f m start n2
+      else alloc_loop f used start n2
   end.
 Definition alloc_fuel : nat := N.to_nat 65537.
 
-(* Repaired: a counter that overflowed to 0 (restore of id 0xFFFF) restarts at 1 *)
+(* with the sid guard a counter that overflowed to 0 (restore of id 0xFFFF) restarts at 1 *)
 Definition norm_next (v : variant) (n : N) : N :=
   if v_sid_guard v then (if N.eqb n 0 then 1%N else n) else n.
-Definition allocate (v : variant) (m : Nmap sess) (nxt : N) : result (N * N) :=
-  let n0 := norm_next v nxt in alloc_loop alloc_fuel m n0 n0.
+Definition allocate (v : variant) (s : st) : result (N * N) :=
+  let n0 := norm_next v (next s) in alloc_loop alloc_fuel (id_used v s) n0 n0.
 
 (* environment of one run: HMAC, cookie lifetime, clock, subscriber-group matcher *)
 Record env := {
@@ -213,17 +264,21 @@ Record env := {
 
 Inductive op :=
 | PADI (t : tuple)
-| PADR (t : tuple) (payload : bytes)
+| PADR (t : tuple) (payload : bytes)            (* a handlePADR that runs without interleaving *)
+| PBEGIN (t : tuple) (payload : bytes)          (* handlePADR up to and including allocateSessionID *)
+| PCOMMIT (uid : N)                             (* ... its addToIndexes + PADS *)
 | PADT (t : tuple) (sid : N)
 | SESS (t : tuple) (sid : N)
-| DEAD (sid : N)                      (* echo generator: handleDeadPeer *)
-| RESTORE (sid : N) (t : tuple)       (* installInMemoryState of a persisted session *)
-| SETNEXT (n : N).                    (* harness only: position the counter *)
+| SETATTR (t : tuple) (sid : N) (a : bytes)     (* session-stage CHAP Response: sess.Username = a *)
+| DEAD (sid : N)                                (* echo generator: handleDeadPeer *)
+| RESTORE (sid : N) (t : tuple) (a : bytes)     (* installInMemoryState of a persisted session with Username a *)
+| SETNEXT (n : N).                              (* harness only: position the counter *)
 
 Inductive out :=
 | ONone
 | OPado (cookie : bytes)
 | OPads (sid uid : N)
+| OPend (sid uid : N)
 | OTerm (uid : N)
 | OReach (uid : N)
 | ORestored (uid : N).
@@ -231,37 +286,57 @@ Inductive out :=
 Definition owner_ok (v : variant) (x : sess) (t : tuple) : bool :=
   if v_owner_check v then tuple_eqb (s_tup x) t else true.
 
-Definition with_next (s : st) (n : N) : st :=
-  {| by_tup := by_tup s; by_sid := by_sid s; next := n; ctr := ctr s |}.
-Definition bump_ctr (s : st) : st :=
-  {| by_tup := by_tup s; by_sid := by_sid s; next := next s; ctr := N.succ (ctr s) |}.
+(* handlePADR up to the point where the session object exists but is not indexed.
+   None = out of fuel; Some (s', None) = dropped; Some (s', Some x) = x built (counter advanced) *)
+Definition padr_begin (v : variant) (e : env) (s : st) (t : tuple) (payload : bytes) : option (st * option sess) :=
+  match parse_tags payload with
+  | Ok tg =>
+      if negb (validate (e_H e) (e_ttl e) (e_now_ns e) (t_cookie tg) t) then Some (s, None)
+      else if negb (e_grp e t) then Some (s, None)
+      else match allocate v s with
+           | Ok (sid, n') =>
+               let s1 := set_next s n' in
+               if v_sid_guard v && N.eqb sid 0 then Some (s1, None)      (* no free id: no session *)
+               else Some (bump_ctr s1, Some {| s_uid := ctr s; s_sid := sid; s_tup := t |})
+           | _ => None
+           end
+  | Err _ => Some (s, None)
+  | _ => None
+  end.
 
-(* None: inadmissible op (RESTORE of an id that is 0 / in use / out of range, SETNEXT out of
-   range) or the allocation loop ran out of fuel (the Go loop would not terminate) *)
+Fixpoint take_pend (u : N) (l : list sess) : option (sess * list sess) :=
+  match l with
+  | [] => None
+  | x :: r => if N.eqb (s_uid x) u then Some (x, r)
+              else match take_pend u r with Some (y, r') => Some (y, x :: r') | None => None end
+  end.
+
+(* None: inadmissible op (RESTORE of an id that is 0 / in use / out of range, SETNEXT out of range, PCOMMIT of
+   nothing) or the allocation loop ran out of fuel (the Go loop would not terminate) *)
 Definition step (v : variant) (e : env) (s : st) (o : op) : option (st * out) :=
   match o with
   | PADI t =>
       if e_grp e t then Some (s, OPado (generate (e_H e) (e_now_s e) t)) else Some (s, ONone)
   | PADR t payload =>
-      match parse_tags payload with
-      | Ok tg =>
-          if negb (validate (e_H e) (e_ttl e) (e_now_ns e) (t_cookie tg) t) then Some (s, ONone)
-          else if negb (e_grp e t) then Some (s, ONone)
-          else match allocate v (by_sid s) (next s) with
-               | Ok (sid, n') =>
-                   let s1 := with_next s n' in
-                   if v_sid_guard v && N.eqb sid 0 then Some (s1, ONone)   (* no free id: no session *)
-                   else
-                     let x := {| s_uid := ctr s; s_sid := sid; s_tup := t |} in
-                     Some (bump_ctr (add_indexes x s1), OPads sid (ctr s))
-               | _ => None
-               end
-      | Err _ => Some (s, ONone)
-      | _ => None
+      match padr_begin v e s t payload with
+      | Some (s1, Some x) => Some (add_indexes None x s1, OPads (s_sid x) (s_uid x))
+      | Some (s1, None) => Some (s1, ONone)
+      | None => None
+      end
+  | PBEGIN t payload =>
+      match padr_begin v e s t payload with
+      | Some (s1, Some x) => Some (set_pend s1 (pend s1 ++ [x]), OPend (s_sid x) (s_uid x))
+      | Some (s1, None) => Some (s1, ONone)
+      | None => None
+      end
+  | PCOMMIT u =>
+      match take_pend u (pend s) with
+      | Some (x, r) => Some (add_indexes None x (set_pend s r), OPads (s_sid x) (s_uid x))
+      | None => None
       end
   | PADT t sid =>
       match by_sid s !! sid with
-      | Some x => if owner_ok v x t then Some (remove_indexes x s, OTerm (s_uid x)) else Some (s, ONone)
+      | Some x => if owner_ok v x t then Some (remove_indexes v x s, OTerm (s_uid x)) else Some (s, ONone)
       | None => Some (s, ONone)
       end
   | SESS t sid =>
@@ -269,19 +344,25 @@ Definition step (v : variant) (e : env) (s : st) (o : op) : option (st * out) :=
       | Some x => if owner_ok v x t then Some (s, OReach (s_uid x)) else Some (s, ONone)
       | None => Some (s, ONone)
       end
-  | DEAD sid =>
+  | SETATTR t sid a =>
       match by_sid s !! sid with
-      | Some x => Some (remove_indexes x s, OTerm (s_uid x))
+      | Some x => if owner_ok v x t then Some (set_attr_of s (s_uid x) a, OReach (s_uid x)) else Some (s, ONone)
       | None => Some (s, ONone)
       end
-  | RESTORE sid t =>
-      if N.eqb sid 0 || negb (N.ltb sid 65536) || sid_used (by_sid s) sid then None
+  | DEAD sid =>
+      match by_sid s !! sid with
+      | Some x => Some (remove_indexes v x s, OTerm (s_uid x))
+      | None => Some (s, ONone)
+      end
+  | RESTORE sid t a =>
+      if N.eqb sid 0 || negb (N.ltb sid 65536) || sid_used (by_sid s) sid || pend_has (pend s) sid then None
       else
         let x := {| s_uid := ctr s; s_sid := sid; s_tup := t |} in
-        let s1 := bump_ctr (add_indexes x s) in
+        let s0 := set_attr_of s (ctr s) a in
+        let s1 := bump_ctr (add_indexes (get_attr s0 (ctr s)) x s0) in
         let n := if N.leb (next s) sid then u16 (sid + 1) else next s in
-        Some (with_next s1 n, ORestored (ctr s))
-  | SETNEXT n => if N.ltb n 65536 then Some (with_next s n, ONone) else None
+        Some (set_next s1 n, ORestored (ctr s))
+  | SETNEXT n => if N.ltb n 65536 then Some (set_next s n, ONone) else None
   end.
 
 Fixpoint run (v : variant) (e : env) (s : st) (ops : list op) : option (st * list out) :=
@@ -297,5 +378,7 @@ Fixpoint run (v : variant) (e : env) (s : st) (ops : list op) : option (st * lis
 (* accessors for the driver *)
 Definition lookup_sid (s : st) (k : N) : option sess := by_sid s !! k.
 Definition lookup_tup (s : st) (t : tuple) : option sess := by_tup s !! t.
+Definition lookup_uidx (s : st) (k : N) : option sess := by_uidx s !! k.
+Definition lookup_attr (s : st) (a : bytes) : option sess := by_attr s !! a.
 Definition size_sid (s : st) : N := N.of_nat (size (by_sid s)).
 Definition size_tup (s : st) : N := N.of_nat (size (by_tup s)).
